@@ -58,10 +58,39 @@ func unmarshalFromYaml(yamlSpecs []byte) ([]OperationSpec, error) {
 			return nil, err
 		}
 
+		// The YAML decoder produces Go ints (and other non-JSON types) inside free-form fields,
+		// while the JSON decoder produces float64. Objects with ints cannot be deep copied
+		// by apimachinery (panic "cannot deep copy int"), so make both decoders agree.
+		if doc.Object, err = normalizeToJSONTypes(doc.Object); err != nil {
+			return nil, err
+		}
+		if doc.MergePatch, err = normalizeToJSONTypes(doc.MergePatch); err != nil {
+			return nil, err
+		}
+		if doc.JSONPatch, err = normalizeToJSONTypes(doc.JSONPatch); err != nil {
+			return nil, err
+		}
+
 		specSlice = append(specSlice, doc)
 	}
 
 	return specSlice, nil
+}
+
+// normalizeToJSONTypes converts a value decoded from YAML to the types encoding/json produces.
+func normalizeToJSONTypes(v any) (any, error) {
+	if v == nil {
+		return nil, nil
+	}
+	data, err := json.Marshal(v)
+	if err != nil {
+		return nil, err
+	}
+	var res any
+	if err = json.Unmarshal(data, &res); err != nil {
+		return nil, err
+	}
+	return res, nil
 }
 
 func applyJQPatch(jqFilter string, fl filter.Filter, obj *unstructured.Unstructured) (*unstructured.Unstructured, error) {
